@@ -82,8 +82,9 @@ class Indentation(afmformats.AFMForceDistance):
             # Reset fit properties
             fp.reset()
             # Set preprocessing options
-            fp["preprocessing"] = preprocessing
-            fp["preprocessing_options"] = options
+            # (store copies, the caller may modify the objects later)
+            fp["preprocessing"] = copy.deepcopy(preprocessing)
+            fp["preprocessing_options"] = copy.deepcopy(options)
             # Reset rating
             self._rating = None
             # Apply preprocessing
@@ -111,7 +112,7 @@ class Indentation(afmformats.AFMForceDistance):
                     fp.pop(ax)
 
         # remember preprocessing
-        self.preprocessing = preprocessing
+        self.preprocessing = copy.deepcopy(preprocessing)
         self.preprocessing_options = copy.deepcopy(options)
 
         return self._preprocessing_details
@@ -305,7 +306,8 @@ class Indentation(afmformats.AFMForceDistance):
         if model_key is not None:
             self.fit_properties["model_key"] = model_key
         if self.fit_properties.get("params_initial", False):
-            parms = self.fit_properties["params_initial"]
+            # (return a copy, the caller may modify the object)
+            parms = copy.deepcopy(self.fit_properties["params_initial"])
         elif "model_key" in self.fit_properties:
             parms = guess_initial_parameters(
                 self,
